@@ -65,6 +65,11 @@ def _gen_t(rng, names, composite):
                         ["X", "int"]])
         if T.tname(a) == T.tname(b):
             return a
+        if rng.random() < 0.25 and a[0] == "D":
+            # (A & B) | C : an intersection of dependent types as a member of a union
+            c = rng.choice([gen.gen_dep_tx(rng, names), rng.choice(["str", "int", "MyInt"] + names)])
+            inner = ["I", a, b] if (isinstance(b, str) or b[0] in ("H", "D", "X")) else a
+            return ["U", inner, c] if T.tname(inner) != T.tname(c) else inner
         if rng.random() < 0.7:
             return ["U", a, b]
         return ["I", a, b] if (isinstance(b, str) or b[0] in ("H", "D", "X")) and a[0] == "D" else ["U", a, b]
